@@ -761,6 +761,20 @@ def full_api_adjoint(rep, seed, n=80):
             ("div_const_bigger", lambda x: algopy.sum(x[:2] / numpy.array([[1., 2.], [3., 4.], [5., 6.]]) + numpy.array([[1., 2.], [3., 4.], [5., 6.]]) / x[2:])),
             ("special", lambda x: algopy.sum(algopy.special.erf(x) * algopy.special.expit(x) + algopy.special.dawsn(x))),
             ("elementary", lambda x: algopy.sum(algopy.exp(algopy.sin(x)) * algopy.log(x * x + 1.) + algopy.sqrt(x * x + 2.) * algopy.tan(x * 0.5) + algopy.cos(x))),
+            # every broadcasting direction of the binary operators between traced operands (the smaller operand's adjoint is a sum)
+            ("div_num_scalar_over_vec", lambda x: algopy.sum((x[0] * x[1]) / (x * x + 1.))),
+            ("div_num_row_over_mat", lambda x: algopy.sum((x[:2] * x[2:]) / (algopy.reshape(x, (2, 2)) + 2.) * W22)),
+            ("div_num_col_over_mat", lambda x: algopy.sum(algopy.reshape(x[:2] * x[2:], (2, 1)) / (algopy.reshape(x, (2, 2)) + 2.) * W22)),
+            ("mul_scalar_times_mat", lambda x: algopy.sum((x[0] * x[3]) * algopy.reshape(x * x, (2, 2)) * W22 + algopy.reshape(x, (2, 2)) * (x[1] * x[2]))),
+            ("sub_row_minus_mat", lambda x: algopy.sum(((x[:2] * x[2:]) - algopy.reshape(x * x, (2, 2))) * ((x[1] * x[1]) + algopy.reshape(x, (2, 2))) * W22)),
+            # a plain array as the left / right operand of dot, matrix and vector forms
+            ("dot_constM_M", lambda x: algopy.sum(algopy.dot(W22, algopy.reshape(x * x, (2, 2))) * W22.T)),
+            ("dot_M_constM", lambda x: algopy.sum(algopy.dot(algopy.reshape(x * x, (2, 2)), W22) * W22.T)),
+            ("dot_constM_v", lambda x: algopy.sum(algopy.dot(W22, x[:2] * x[2:]) * W2)),
+            ("dot_v_constM", lambda x: algopy.sum(algopy.dot(x[:2] * x[2:], W22) * W2)),
+            ("dot_constv_v", lambda x: algopy.dot(W2, x[:2] * x[2:]) * x[0]),
+            ("dot_v_constv", lambda x: algopy.dot(x[:2] * x[2:], W2) * x[3]),
+            ("dot_constv_M", lambda x: algopy.sum(algopy.dot(W2, algopy.reshape(x * x, (2, 2))) * W2)),
             # the same node as both arguments of a binary function (both adjoints accumulate into one buffer)
             ("dot_same_node", lambda x: (lambda M: algopy.sum(algopy.dot(M, M) * W22))(algopy.reshape(x, (2, 2)) + A0)),
             ("dot_vv_same_node", lambda x: (lambda v: algopy.dot(v, v))(x * x + 1.)),
